@@ -17,4 +17,29 @@ CLAIMED = {
         ref="5/C19"),
 }
 
+CLAIMED["C04"] = dict(
+    text="Messages.tla states the grammar of all thirteen wire structures (encoder + prefix decoder each) and the three "
+         "obligations of the property (canonical encodings accepted as their value; foreign tags / trailing data rejected; "
+         "anything accepted re-encodes no longer and re-decodes to the same value, and Marshal afterwards returns that encoding). "
+         "TLC checks RoundTrip, CanonicalNoLonger, TypesApart and StepEqualsElementLength exhaustively on the grammar at "
+         "scaled-down widths over all short strings, ObjectReuse.tla's MarshalIsCurrent on the complete state graph (with the "
+         "stale-cache variant as negative control), generates every reuse behaviour up to the depth for replay on all six "
+         "request types, and validates every recorded decoder/encoder/reuse event at the real widths by decoding and encoding "
+         "the logged bytes itself.",
+    note="Trusts TLC's evaluation of Messages.tla, and that Messages.tla transcribes the RFC 9578 / draft grammars correctly "
+         "(Ne=49, Nk=48/256/64). Real-width values are seeded samples plus the mutation closure of honest messages, not all strings.",
+    technique="TLA+ grammar spec + TLC exhaustive codec laws + TLC-generated reuse behaviours replayed + TLC trace validation of recorded codec calls",
+    ref="5/C04")
+CLAIMED["C03"] = dict(
+    text="Every decoder is a total function in Messages.tla/TLSWire.tla (checked over all short strings); every other consumer "
+         "of peer bytes is specified as a total function into its result classes within a resource bound. Two recorded traces "
+         "(13 decoders; 25 further consumers: finalization, evaluation, token verification, attester calls, batch evaluation, "
+         "signature verification, token-key parsing) over honest inputs, their grammar-derived mutation closure and random "
+         "strings are validated by TLC: no panic, returned within 5 s, allocation <= 1 MiB + 1 KiB/byte, grammar must-reject "
+         "inputs rejected, honest inputs served.",
+    note="Black-box on the code side: inputs outside the mutation closure and the seeded random strings are not tried. "
+         "Allocation is a TotalAlloc delta measured around a call executed alone in its process.",
+    technique="TLA+ total-function/grammar spec + TLC trace validation of recorded calls with measured panics, time and allocation",
+    ref="5/C03")
+
 NOT_YET = "check not built yet in this round (see DESIGN.md section 11 for the build order); no claim is made"
